@@ -4,6 +4,7 @@
 package gmon
 
 import (
+	"syscall"
 	"regexp"
 	"runtime"
 	"strings"
@@ -142,4 +143,50 @@ func Signature() (sig string, detail string) {
 		}
 	}
 	return strings.Join(parts, "+"), strings.Join(d, "\n--\n")
+}
+
+// Spinning samples the goroutines whose stack contains marker: when in every sample such a goroutine is running or
+// runnable (not blocked) inside the repository's code, it returns the innermost repository function of the last sample.
+// Together with the processor time the process consumed meanwhile (the caller's business) this tells an operation that
+// burns time without finishing from one that merely waits for a slow machine.
+func Spinning(marker string, samples int, gap time.Duration) (frame string, ok bool) {
+	for i := 0; i < samples; i++ {
+		found := false
+		for _, g := range Dump() {
+			if !strings.Contains(g.Text, marker) {
+				continue
+			}
+			if !(strings.HasPrefix(g.State, "running") || strings.HasPrefix(g.State, "runnable")) {
+				continue
+			}
+			for _, line := range strings.Split(g.Text, "\n") {
+				if strings.Contains(line, "Computantis/src/") && !strings.HasPrefix(line, "\t") {
+					f := line
+					if k := strings.Index(f, "("); k > 0 && strings.HasSuffix(f, ")") {
+						f = f[:strings.LastIndex(f, "(")]
+					}
+					if k := strings.LastIndex(f, "/"); k >= 0 {
+						f = f[k+1:]
+					}
+					frame = f
+					found = true
+					break
+				}
+			}
+		}
+		if !found {
+			return "", false
+		}
+		time.Sleep(gap)
+	}
+	return frame, frame != ""
+}
+
+// CPUSeconds: processor time (user and system) this process has consumed so far.
+func CPUSeconds() float64 {
+	var ru syscall.Rusage
+	if syscall.Getrusage(syscall.RUSAGE_SELF, &ru) != nil {
+		return 0
+	}
+	return float64(ru.Utime.Sec+ru.Stime.Sec) + float64(ru.Utime.Usec+ru.Stime.Usec)/1e6
 }
